@@ -1,5 +1,6 @@
 from __future__ import annotations
 
+import dataclasses
 import logging
 from collections import defaultdict
 from pathlib import Path
@@ -1009,7 +1010,8 @@ class StubsStringGenerator:
                     alias = qualified_import.alias
 
             if alias:
-                node.name = alias
+                # Use a renamed copy, the node itself belongs to the API model and must not be changed
+                node = dataclasses.replace(node, name=alias)
 
             self.reexport_modules[shortest_reexport_module_id].append(node)
             return True
